@@ -76,6 +76,11 @@ def cases(tier, seed):
     # which only the true peak suppresses - also when a chunk seam lies between the two (scale < 1: distances in nm and px differ)
     for scale, md in ((0.5, 3.0), (1.0, 6.0), (0.5, 2.5)):
         out.append({"family": "filament", "scale": scale, "min_distance": md})
+    # template shapes: much shorter along z than along y and x (the overlap between chunks has to follow each axis), and even
+    # sides (picks at half-integer positions, with a chunk seam through the particle centre and chunks of odd length)
+    for name in ("flat", "even"):
+        for scale, md in ((1.0, 1.0), (1.0, 2.0), (0.5, 1.0)):
+            out.append({"family": "template-shape", "name": name, "scale": scale, "min_distance": md})
     # call histories on one picker object: a pick must not depend on which images / scales the picker served before
     for picker in ("ZNCC-provider", "LoG", "DoG"):
         out.append({"family": "history", "picker": picker, "depth": 2 if tier == "quick" else 3})
@@ -214,6 +219,51 @@ def _run_filament(case):
     return {"nontrivial": True, "outcome": f"filament|{'viol' if viol else 'ok'}", "viol": list(by.items())}
 
 
+def _run_template_shape(case):
+    import dask
+    from dask import array as da
+
+    from acryo import pick
+
+    dask.config.set(scheduler="synchronous")
+    scale, md, name = case["scale"], case["min_distance"], case["name"]
+    if name == "flat":
+        blobs = [(1.0, (0.0, -4.0, 3.0), 1.0), (0.8, (0.0, 3.5, -3.0), 1.1), (0.6, (0.5, 0.0, 0.0), 0.9)]
+        tshape, shape = (5, 17, 15), (10, 64, 60)
+        centres = [np.array([4.0, 14.0, 13.0]), np.array([5.0, 31.0, 41.0]), np.array([4.0, 50.0, 22.0])]
+        chunkings = [None, (10, 64, 60), (10, 32, 60), (10, 64, 30), (10, 33, 31), (10, 29, 60), (10, 64, 43), (5, 32, 30), (10, 16, 20), (10, 27, 25)]
+    else:
+        blobs = [(1.0, (0.5, 0.5, -0.5), 1.0), (0.7, (-0.5, 1.5, 1.5), 0.9)]
+        tshape, shape = (6, 6, 6), (20, 36, 36)
+        centres = [np.array([9.5, 8.5, 8.5]), np.array([9.5, 26.5, 22.5])]
+        chunkings = [None, (20, 36, 36), (20, 18, 18), (20, (9, 27), 36), (20, 36, (9, 27)), (20, (27, 9), (23, 13)), ((10, 10), 9, 9), (20, 36, 23), (20, 27, 36), ((9, 11), 36, 36)]
+    tm = data.particle_box(tshape, blobs=blobs)
+    g = np.stack(np.meshgrid(*[np.arange(n, dtype=np.float64) for n in shape], indexing="ij"), -1)
+    img = sum(data.particle(g - c, blobs) for c in centres).astype(np.float32)
+    matcher = pick.ZNCCTemplateMatcher(tm, order=1)
+    viol = []
+    for chunks in chunkings:
+        arr = img if chunks is None else da.from_array(img, chunks=chunks)
+        try:
+            m = matcher.pick_molecules(arr, scale, min_distance=md, min_score=0.6)
+        except Exception as e:  # noqa
+            viol.append((f"{ID}|ZNCC[{name} template]|raised-{type(e).__name__}|{'numpy' if chunks is None else 'multi-chunk'}", f"chunks {chunks}: {e}"))
+            continue
+        pos = np.asarray(m.pos, dtype=np.float64) / scale
+        near = lambda p: [i for i, c in enumerate(centres) if np.abs(p - c).max() <= 1.0]  # noqa
+        hits = [near(p) for p in pos]
+        extra = [np.round(p, 1).tolist() for p, h in zip(pos, hits) if not h]
+        counts = [sum(1 for h in hits if i in h) for i in range(len(centres))]
+        if extra or any(c != 1 for c in counts):
+            what = "spurious-pick" if extra else ("duplicate-pick" if any(c > 1 for c in counts) else "particle-missed")
+            viol.append((f"{ID}|ZNCC[{name} template]|{what}|{'numpy' if chunks is None else 'multi-chunk'}",
+                         f"template {tshape}, scale {scale}, min_distance {md} nm, chunks {chunks}: {len(pos)} picks {[np.round(p, 1).tolist() for p in pos]} for particles at {[c.tolist() for c in centres]} (picks per particle {counts})"))
+    by = {}
+    for s_, m_ in viol:
+        by.setdefault(s_, m_)
+    return {"nontrivial": True, "outcome": f"template-shape|{name}|{'viol' if viol else 'ok'}", "viol": list(by.items())}
+
+
 def _run_many_rotations(case):
     import dask
     from scipy.spatial.transform import Rotation
@@ -347,6 +397,8 @@ def run_case(case):
         return _run_many_rotations(case)
     if case.get("family") == "filament":
         return _run_filament(case)
+    if case.get("family") == "template-shape":
+        return _run_template_shape(case)
     dask.config.set(scheduler="synchronous")
     img, planted = _image(case)
     scale = case["scale"]
